@@ -236,8 +236,8 @@ func deserializeFullParams(
 	if err != nil {
 		return nil, err
 	}
-	extensionSpace := make([][]byte, 0, extensionSpaceLength)
-	for i := 0; i < int(extensionSpaceLength); i++ {
+	extensionSpace := make([][]byte, 0)
+	for i := uint64(0); i < extensionSpaceLength; i++ {
 		tmpLen, err := d.ReadVarInt()
 		if err != nil {
 			return nil, err
@@ -265,8 +265,8 @@ func deserializeSignBlockWitness(
 	if err != nil {
 		return nil, err
 	}
-	signBlockWitness := make([][]byte, 0, signBlockWitnessLength)
-	for i := 0; i < int(signBlockWitnessLength); i++ {
+	signBlockWitness := make([][]byte, 0)
+	for i := uint64(0); i < signBlockWitnessLength; i++ {
 		tmpLen, err := d.ReadVarInt()
 		if err != nil {
 			return nil, err
@@ -321,7 +321,7 @@ func DeserializeTransactions(
 	}
 
 	txs := make([]*transaction.Transaction, 0)
-	for i := 0; i < int(txCount); i++ {
+	for i := uint64(0); i < txCount; i++ {
 		tx, err := transaction.NewTxFromBuffer(buf)
 		if err != nil {
 			return nil, err
